@@ -93,6 +93,32 @@ ARG_VALUES = {
 }
 
 
+FQL_CODE = {None: 'absent', '': 'empty', 'DMTF:FQL': 'dmtf'}
+
+
+def gen_params(rng):
+    """optional session parameters of an Open (FilterQueryLanguage, FilterQuery, OperationTimeout, ContinueOnError)"""
+    if rng.random() < 0.6:
+        return {}
+    p = {}
+    if rng.random() < 0.6:
+        p['FilterQueryLanguage'] = rng.choice([None, '', 'DMTF:FQL', 'DMTF:FQL', 'WQL', 'dmtf:fql', 'DMTF:CQL'])
+    if rng.random() < 0.5:
+        p['FilterQuery'] = rng.choice([None, '', 'name = "p1"', 'v > 2', 'garbage ((('])
+    if rng.random() < 0.6:
+        p['OperationTimeout'] = rng.choice([None, 0, 1, 39, 40, 41, 1000, -1])
+    if rng.random() < 0.3:
+        p['ContinueOnError'] = rng.choice([None, False, True])
+    return p
+
+
+def model_params(p):
+    p = p or {}
+    fql = p.get('FilterQueryLanguage')
+    return {'fql': FQL_CODE.get(fql, 'other'), 'fq': bool(p.get('FilterQuery')),
+            'ot': p.get('OperationTimeout'), 'coe': p.get('ContinueOnError')}
+
+
 def gen_args(rng, method):
     args = {}
     if rng.random() < 0.55:
@@ -170,6 +196,7 @@ class Real:
                 if op['max'] is not None or op.get('passnone'):
                     kw['MaxObjectCount'] = op['max']
                 kw.update(op.get('args') or {})
+                kw.update(op.get('params') or {})
                 if op['src'] is None:
                     r = getattr(c, op['method'])('TST_P', namespace=ns, **kw)
                 else:
@@ -233,7 +260,7 @@ def gen_history(rng, thorough):
                 mx = None
             ops.append({'op': 'open', 'method': method, 'kind': kind, 'trad': trad, 'ns': nsi,
                         'src': 'p0' if needs_src else None, 'max': mx, 'passnone': rng.random() < 0.5,
-                        'args': gen_args(rng, method)})
+                        'args': gen_args(rng, method), 'params': gen_params(rng)})
             opened += 1
         elif r < 0.80:
             kind = rng.choice(['withPath', 'paths', 'insts'])
@@ -266,7 +293,9 @@ def execute(n_per_ns, ops, rng):
                 except Exception:
                     objs = []
             out = real.step(op)
-            model_ops.append({'op': 'open', 'kind': op['kind'], 'ns': nsi, 'objs': objs, 'max': op['max']})
+            mo = {'op': 'open', 'kind': op['kind'], 'ns': nsi, 'objs': objs, 'max': op['max']}
+            mo.update(model_params(op.get('params')))
+            model_ops.append(mo)
             trad.append(objs)
             if 'ok' in out and out['ok']['ctx'] is not None:
                 kinds[out['ok']['ctx']] = op['kind']
@@ -384,7 +413,7 @@ def run(run):
         for op in model_ops:
             o = dict(op)
             if o['op'] == 'open':
-                o = {'op': 'open', 'kind': op['kind'], 'ns': op['ns'], 'objs': op['objs'], 'max': op['max']}
+                o = {k: op[k] for k in ('op', 'kind', 'ns', 'objs', 'max', 'fql', 'fq', 'ot', 'coe')}
             elif o['op'] == 'pull':
                 o = {'op': 'pull', 'kind': op['kind'], 'ctx': op['ctx'], 'max': op['max']}
             mo.append(o)
